@@ -12,6 +12,7 @@ import (
 	"github.com/vmware/go-ipfix/pkg/exporter"
 	"github.com/vmware/go-ipfix/pkg/verifsim/simnet"
 
+	"verif/oracle/ipfixref"
 	"verif/sim/plan"
 )
 
@@ -126,8 +127,45 @@ func genC01(seed uint64, tier string) *plan.Plan {
 			}
 		}
 	}
+	if (tr == 0 || tr == 1) && r.IntN(5) == 0 {
+		// Another vendor's exporter talks to the same collector first (its own observation domain):
+		// its template announces fixed lengths for elements the registry lists as variable-length,
+		// which RFC 7011 allows. What the collector makes of that exporter's data is not judged here;
+		// the session of the exporter under test, in the same process, must be untouched by it.
+		pl.Cfg["foreign"] = int64(1 + r.IntN(3))
+	}
 	genSchedule(r, pl, 2, 5000)
 	return pl
+}
+
+const c01ForeignDomain = 0xF0F0F0F0
+
+// foreignMessages: the template (and one data record) of another vendor's exporter that announces
+// fixed lengths (variant 1..3: 4, 32, 200 bytes) for the variable-length elements this plan uses.
+func foreignMessages(pl *plan.Plan, variant int64) (tmsg, dmsg []byte) {
+	var fields []ipfixref.Field
+	seen := map[string]bool{}
+	for _, op := range pl.Ops {
+		if op.K != "tmpl" {
+			continue
+		}
+		for _, k := range op.N {
+			if sp, ok := specFromKey(k); ok && sp.Len == entities.VariableLength && !seen[sp.Name] && len(fields) < 12 {
+				seen[sp.Name] = true
+				fields = append(fields, ipfixref.Field{ID: sp.ID, Ent: sp.Ent, Len: uint16([]int{4, 32, 200}[(variant-1)%3])})
+			}
+		}
+	}
+	if len(fields) == 0 {
+		return nil, nil
+	}
+	tmsg = ipfixref.EncodeMessage(ipfixref.Header{Domain: c01ForeignDomain}, ipfixref.EncodeSet(ipfixref.TemplateSetID, ipfixref.EncodeTemplateRecord(ipfixref.TemplateRecord{ID: 999, Fields: fields})))
+	recLen := 0
+	for _, f := range fields {
+		recLen += int(f.Len)
+	}
+	dmsg = ipfixref.EncodeMessage(ipfixref.Header{Domain: c01ForeignDomain, Sequence: 1}, ipfixref.EncodeSet(999, make([]byte, recLen)))
+	return tmsg, dmsg
 }
 
 func runC01(pl *plan.Plan, out *plan.Outcome) {
@@ -205,6 +243,33 @@ func runC01(pl *plan.Plan, out *plan.Outcome) {
 	baseDomain := cfgOr(pl, "domain", 1)
 	env.Go("app", func() {
 		env.Sleep(time.Millisecond)
+		if fl := cfgOr(pl, "foreign", 0); fl > 0 && (tr == 0 || tr == 1) {
+			tmsg, dmsg := foreignMessages(pl, fl)
+			if tmsg != nil {
+				env.Count("fault.foreign_exporter_with_fixed_length_strings", 1)
+				var c net.Conn
+				var err error
+				Block("foreign-dial", func() {
+					if tr == 1 {
+						host, port := "10.0.0.1", 4739
+						if v6 {
+							host = "fd00::1"
+						}
+						c, err = env.Net.DialUDP(&net.UDPAddr{IP: net.ParseIP(host), Port: port})
+					} else {
+						c, err = env.Net.Dial("tcp", addr)
+					}
+				})
+				if err == nil {
+					Block("foreign-write", func() { c.Write(tmsg) })
+					env.Sleep(time.Millisecond)
+					Block("foreign-write", func() { c.Write(dmsg) })
+					env.Sleep(10 * time.Millisecond)
+					c.Close()
+					env.Sleep(10 * time.Millisecond)
+				}
+			}
+		}
 		for si := 0; si < nSess; si++ {
 			if cfgOr(pl, "same_domain", 0) == 0 {
 				pl.Cfg["domain"] = baseDomain + int64(si)
@@ -371,6 +436,15 @@ func runC01(pl *plan.Plan, out *plan.Outcome) {
 			}
 		}
 		return ""
+	}
+	{
+		kept := got[:0:0]
+		for _, d := range got {
+			if d.Domain != c01ForeignDomain {
+				kept = append(kept, d)
+			}
+		}
+		got = kept
 	}
 	if !lossy {
 		// deliveries = the successful sends, in order; over UDP the exporter's periodic template
